@@ -1257,6 +1257,9 @@ pub struct Gen {
     pub profile: Profile,
     /// ops of a scenario in progress (multi-step sequences random choice reaches too rarely)
     plan: std::collections::VecDeque<Op>,
+    /// second stream, for deciding whether a (newer) scenario starts: asking it does not move `rng`, so
+    /// adding a scenario leaves every history in which it does not start exactly as it was
+    pub srng: Rng,
 }
 
 #[derive(Clone, Copy, PartialEq, Debug)]
@@ -1284,7 +1287,7 @@ pub enum Profile {
 
 impl Gen {
     pub fn new(seed: u64, profile: Profile) -> Self {
-        Gen { rng: Rng::new(seed), serial: 1, profile, plan: Default::default() }
+        Gen { rng: Rng::new(seed), serial: 1, profile, plan: Default::default(), srng: Rng::new(seed ^ 0x5ce7_a210_0000_0001) }
     }
 
     fn fresh(&mut self) -> u64 {
